@@ -149,7 +149,8 @@ def run_shard(params, rec):
         if not state["hit"] or state["early"]:
             rec.count("reference_did_not_reach_fault_pc")
             continue
-        jitlib.snapshot(refj, spec, pre)
+        if not in_slot:
+            jitlib.snapshot(refj, spec, pre)
         d = None if in_slot else jitlib.diff_outcomes(pre, out, spec, skip=("exception flags", "raised"))
         rec.count("snapshots_compared")
         rec.distinct("%s|%s|%s|%s" % (spec.mname, backend, mnemonic, pos))
